@@ -10,7 +10,7 @@ circuit, every stack of frames and every nesting depth:
   unrolled program (the frames identify *that* execution of *that* instruction);
 * `resolveFrames_iter_lt`, `resolveFrames_reps`: every frame's iteration index is below, and its repetition count equals, the
   REPEAT count of the block it sits in;
-* `checkLoc_ok_sound`: an "ok" verdict entails that the frames resolve, that gate, tag, arguments, target range and tick agree,
+* `checkLoc_accept_sound`: an accepting verdict entails that the frames resolve, that gate, tag, arguments, target range and tick agree,
   and that the forward run with only the reported fault injected flips exactly the error's symptoms.
 -/
 namespace Stim
@@ -158,5 +158,55 @@ example :
     (resolveLoc c [⟨1, 0, 3⟩, ⟨1, 2, 2⟩, ⟨0, 1, 0⟩]).map (fun r => (r.1, match r.2 with | .instr g _ _ _ => g | .rep _ _ _ => "REPEAT"))
       = some (1 + 2 * 5 + 1 + 1 * 2 + 0, "X_ERROR") := by
   decide
+
+end Stim
+
+namespace Stim
+
+/-- **What an accepted location guarantees.**  If the checker accepts a reported location for an error with symptom vector `want`,
+    then the frames resolve to an instruction occurrence `i` of the unrolled circuit that is exactly the reported gate with the
+    reported tag and arguments, the reported tick is the number of TICKs executed before it, and running the circuit with the
+    reported Pauli product injected just before occurrence `i` (and the reported result flipped), and nothing else, flips exactly
+    the error's detectors and observables. -/
+theorem checkLoc_accept_sound (c : Circuit) (shape : Nat × Nat) (qc : List (Nat × List Rat)) (want : List Bool) (l : XLoc)
+    (h : checkLoc c shape qc want l = none) :
+    ∃ i tag args ts,
+      resolveLoc c l.frames = some (i, .instr l.gate tag args ts) ∧
+      tag = l.gateTag ∧ tag = l.noiseTag ∧ args = l.args ∧
+      ticksBefore c i = l.tick ∧
+      symptomVec shape (injectBefore c i (lettersOfTargets c.numQubits l.pauli) l.meas) = want := by
+  unfold checkLoc at h
+  split at h
+  · cases h
+  · cases h
+  · rename_i i g tag args ts hres
+    have hnone : (locFailures c shape qc want l i g tag args ts).find? (·.1) = none := by
+      cases hf : (locFailures c shape qc want l i g tag args ts).find? (·.1) with
+      | none => rfl
+      | some x => rw [hf] at h; cases h
+    have hall := List.find?_eq_none.mp hnone
+    have hg : (g != l.gate) = false := by
+      have := hall (g != l.gate, "wrong-gate " ++ g) (by simp [locFailures])
+      simpa using this
+    have htag : (tag != l.gateTag || tag != l.noiseTag) = false := by
+      have := hall (tag != l.gateTag || tag != l.noiseTag, "wrong-tag") (by simp [locFailures])
+      simpa using this
+    have hargs : (args != l.args) = false := by
+      have := hall (args != l.args, "wrong-args") (by simp [locFailures])
+      simpa using this
+    have htick : (ticksBefore c i != l.tick) = false := by
+      have := hall (ticksBefore c i != l.tick, "wrong-tick") (by simp [locFailures])
+      simpa using this
+    have hsym : (symptomVec shape (injectBefore c i (lettersOfTargets c.numQubits l.pauli) l.meas) != want) = false := by
+      have := hall (symptomVec shape (injectBefore c i (lettersOfTargets c.numQubits l.pauli) l.meas) != want,
+        "symptoms-differ got=" ++ String.ofList ((symptomVec shape (injectBefore c i (lettersOfTargets c.numQubits l.pauli) l.meas)).map fun b => if b then '1' else '0'))
+        (by simp [locFailures])
+      simpa using this
+    have hg' : g = l.gate := by simpa using hg
+    have htag' : tag = l.gateTag ∧ tag = l.noiseTag := by
+      simp only [Bool.or_eq_false_iff, bne_eq_false_iff_eq] at htag
+      exact htag
+    subst hg'
+    exact ⟨i, tag, args, ts, hres, htag'.1, htag'.2, by simpa using hargs, by simpa using htick, by simpa using hsym⟩
 
 end Stim
